@@ -227,7 +227,7 @@ def run(ctx, model_ok):
         for items in itertools.product(ALPHABET, repeat=4):
             s, o = plain_script("".join(items))
             checks.append(("plain4", ("plain", sig(items), 4), s, o, "0"))
-    for body in ["a\\rb", "\\r\\n", "\\x00\\x7f", "\\x0a|\\x0A", "tab\there", "line\nbreak é\n€", "#not a comment", "; x", "\\x5c\\x22\\x24"]:
+    for body in ["a\\rb", "\\r\\n", "\\x00\\x7f", "\\x0a|\\x0A", "col1\\x09col2|", "one\\x0atwo", "\\x01\\x0f\\x10\\x1f", "\\x0d\\x0a", "\\x7f\\x00x", "tab\there", "line\nbreak é\n€", "#not a comment", "; x", "\\x5c\\x22\\x24"]:
         s, o = plain_script(body)
         checks.append(("plain-extra", ("plain-extra", body), s, o, "0"))
     ctx.cov["exhaustive"] = True
